@@ -131,6 +131,22 @@ def run(P, R, tier):
               and astq.arg_of(s.value, kw='geometry') is not None and norm(astq.arg_of(s.value, kw='geometry')) == sg.params[1] for s in walk_own(sg.node))
     R.check(okr, 'C20.c', sg, None, 'set_geometry(inplace=False) returns GeoDataFrame(self, geometry=<requested>)', 'set_geometry does not return a frame with the requested geometry',
             construct='return GeoDataFrame(self, geometry=geometry)')
+    # returning `self` is reserved for inplace=True: any other condition hands the caller an ALIAS of the source frame, and a later in-place change of the
+    # result (set_geometry(inplace=True), column assignment) silently changes the source (and, under Dask, the shared partition objects)
+    inp = next((p_ for p_ in sg.params if p_ == 'inplace'), None)
+    for s_ in walk_own(sg.node):
+        if isinstance(s_, ast.Return) and isinstance(s_.value, ast.Name) and s_.value.id == 'self':
+            conds = []
+            q_ = s_
+            while getattr(q_, '_parent', None) is not None and q_._parent is not sg.node:
+                child, q_ = q_, q_._parent
+                if isinstance(q_, ast.If):
+                    conds.append((q_.test, child in q_.body))
+            implied = any(in_body and norm(t_) in (inp, f'{inp} is True', f'{inp} == True') for t_, in_body in conds) \
+                or any(in_body and isinstance(t_, ast.BoolOp) and isinstance(t_.op, ast.And) and any(norm(v_) == inp for v_ in t_.values) for t_, in_body in conds)
+            R.check(implied, 'C20.c', sg, s_, 'set_geometry returns `self` only when inplace=True',
+                    f'`return self` is reached with inplace=False (under `{" / ".join(norm(t_) for t_, _ in conds)}`): the caller gets an alias of the source frame instead of a new frame, '
+                    'so a later in-place change of the result changes the source frame\'s active geometry', construct='return self only when inplace')
     gp = P.func('spatialpandas.geodataframe', 'GeoDataFrame.geometry')
     okg = any(isinstance(s, ast.If) and '_has_valid_geometry' in norm(s.test) and any(isinstance(x, ast.Raise) for x in s.body) for s in gp.node.body) \
         and any(isinstance(s, ast.Return) and norm(s.value) == 'self[self._geometry]' for s in walk_own(gp.node))
@@ -216,6 +232,8 @@ def run(P, R, tier):
     except AnalysisError:
         pass
     for o in sub.obs:
+        if o.rule == 'C12.b' and 'fromkeys' in (o.construct or ''):
+            R._add('C20.d', (o.path, o.site.split('::')[-1]), None, o.status, 'the bounds recorded for the active geometry must be its own: ' + o.detail, construct=o.construct)
         if o.rule == 'C12.e':
             R._add('C20.d', (o.path, o.site.split('::')[-1]), None, o.status, 'switching the active geometry afterwards (set_geometry) must find the other columns\' bounds filtered like the partitions: ' + o.detail, construct=o.construct)
         if o.rule == 'C12.f':
@@ -287,6 +305,16 @@ def run(P, R, tier):
                                      for x in ast.walk(astq.expand(g_, s_.value))) for s_ in rets)
         R.check(ok_, 'C20.f', g_, rets[0] if rets else None, 'the dask token of a GeoDataFrame includes its active geometry',
                 'the dask token of a GeoDataFrame does not include its active geometry: frames differing only in it collapse into one collection', construct='GeoDataFrame token includes the active geometry')
+    # the Dask type hooks answer from their argument only: a module-level table of sample frames keyed by layout forgets the active geometry
+    from rules import common as _cm
+    for hn in ('meta_nonempty_dataframe', 'make_meta_dataframe', 'get_parallel_type_dataframe', 'get_collection_type_dataframe', 'get_parallel_type_frame'):
+        hk = P.mods['spatialpandas.dask'].funcs.get(hn)
+        if hk is None:
+            continue
+        stale = _cm.answers_from_module_table(P, hk, must_key=('_geometry', 'geometry.name'))
+        R.check(not stale, 'C20.e', hk, stale[0] if stale else None, f'{hn} answers from its argument (no module-level table that ignores the active geometry)',
+                f'`{norm(stale[0]) if stale else ""}` in {hn} answers from a module-level table whose key does not contain the active geometry: once a frame with the same columns '
+                'was seen with another geometry active, every later inferred meta advertises that one while the partitions use the real one', construct=f'{hn}: no geometry-blind table')
     mn = P.func('spatialpandas.dask', 'meta_nonempty_dataframe')
     okmn = False
     for c in astq.own_calls(mn):
